@@ -43,19 +43,23 @@ type Facts struct {
 	DynEmptySegGuard                                        bool
 	DynMapConvert                                           bool
 	CollectMapSkipsFirst                                    bool
-	HTTPMethods                                             [][2]string // method -> parser
-	HTTPTypes                                               [][2]string // media type -> parser
-	HTTPDefault                                             string
-	HTTPCutSep                                              string
-	HTTPUniform                                             bool
-	HTTPAst                                                 string // the go/ast reading of the same tables (kept for the replay file)
-	PoolAst                                                 string
-	PoolNotes                                               []string
-	CloneCopiesTests                                        bool
-	CloneCopiesPosts                                        bool
-	KeyBufGuarded                                           bool
-	NilProvGuard                                            bool
-	PtrRefreshesSubData                                     bool
+	// HelpersReadBeforeFree: in Issues.Sanitize{Map,List}AndCollect the messages are read (Sanitize*) before the
+	// issues are handed to the pool (Collect*); HelpersShape: what was read off the two function bodies
+	HelpersReadBeforeFree bool
+	HelpersShape          string
+	HTTPMethods           [][2]string // method -> parser
+	HTTPTypes             [][2]string // media type -> parser
+	HTTPDefault           string
+	HTTPCutSep            string
+	HTTPUniform           bool
+	HTTPAst               string // the go/ast reading of the same tables (kept for the replay file)
+	PoolAst               string
+	PoolNotes             []string
+	CloneCopiesTests      bool
+	CloneCopiesPosts      bool
+	KeyBufGuarded         bool
+	NilProvGuard          bool
+	PtrRefreshesSubData   bool
 }
 
 func parseFile(fset *token.FileSet, path string) (*ast.File, error) {
@@ -835,6 +839,53 @@ func extractFacts(repo string) (*Facts, error) {
 		})
 	}
 
+	// F-helpers: the sugar helpers read the messages BEFORE handing the issues to the pool
+	{
+		var notes []string
+		okAll := true
+		for _, name := range []string{"SanitizeMapAndCollect", "SanitizeListAndCollect"} {
+			fd := findFunc(uf, "issueHelpers", name)
+			if fd == nil || fd.Body == nil {
+				notes = append(notes, name+"=missing")
+				okAll = false
+				continue
+			}
+			var firstRead, lastRead, firstFree token.Pos
+			ast.Inspect(fd.Body, func(n ast.Node) bool {
+				call, ok := n.(*ast.CallExpr)
+				if !ok {
+					return true
+				}
+				fn := exprString(call.Fun)
+				base := fn[strings.LastIndex(fn, ".")+1:]
+				switch {
+				case strings.HasPrefix(base, "Sanitize") && !strings.HasSuffix(base, "AndCollect"):
+					if firstRead == token.NoPos {
+						firstRead = call.Pos()
+					}
+					lastRead = call.End()
+				case strings.HasPrefix(base, "Collect") || base == "FreeIssue" || base == "Put":
+					if firstFree == token.NoPos {
+						firstFree = call.Pos()
+					}
+				}
+				return true
+			})
+			switch {
+			case firstRead == token.NoPos || firstFree == token.NoPos:
+				notes = append(notes, name+"=shape-not-recognised")
+				okAll = false
+			case lastRead <= firstFree:
+				notes = append(notes, name+"=read-then-free")
+			default:
+				notes = append(notes, name+"=free-then-read")
+				okAll = false
+			}
+		}
+		fc.HelpersReadBeforeFree = okAll
+		fc.HelpersShape = strings.Join(notes, " ")
+	}
+
 	// F-http: the two switch statements of zhttp.Request
 	zf, err := parseFile(fset, filepath.Join(repo, "zhttp/zhttp.go"))
 	if err != nil {
@@ -1081,6 +1132,7 @@ func (f *Facts) lean() string {
 	}
 	fmt.Fprintf(&s, "/-- guards that keep input data from panicking the glue code -/\ndef dynFacts : Dyn.Facts := { keyBufGuard := %s, nilProvGuard := %s, unexportedGuard := %s, emptySegGuard := %s, mapConvert := %s, unwrapNilGuard := %s, embeddedNilGuard := %s, nilBodyGuard := %s }\n\n",
 		b(f.DynKeyBufGuard), b(f.DynNilProvGuard), b(f.DynUnexportedGuard), b(f.DynEmptySegGuard), b(f.DynMapConvert), b(f.DynUnwrapNilGuard), b(f.DynEmbeddedNilGuard), b(f.DynNilBodyGuard))
+	fmt.Fprintf(&s, "-- go/ast shape reading: %s\n/-- Issues.SanitizeMapAndCollect / SanitizeListAndCollect read the messages (Sanitize*) before they hand the issues to the pool (Collect*) -/\ndef helpersReadBeforeFree : Bool := %s\n\n", f.HelpersShape, b(f.HelpersReadBeforeFree))
 	fmt.Fprintf(&s, "/-- Issues.CollectMap skips the `$first` entry, so every issue object is returned to the pool once -/\ndef collectMapSkipsFirst : Bool := %s\n\n", b(f.CollectMapSkipsFirst))
 	s.WriteString("/-- zhttp.Request's dispatch, read off a grid of (method, Content-Type) requests sent through the real function with marker parsers -/\n")
 	fmt.Fprintf(&s, "-- go/ast shape reading: %s\n", f.HTTPAst)
